@@ -79,6 +79,8 @@ def scanner_girs(rng, n_each):
         out.append(('reference graph #%d' % b, r.xml, ['GLib', 'GObject']))
         out.append(('typed members world #%d' % b, c05.typed_member_world(rng, S, ET), ['GLib', 'GObject', 'Nib']))
         out.append(('one unbindable callback type #%d' % b, lonely_world(rng, S, plain=(b % 2 == 0)), ['GLib', 'GObject']))
+    for b in range(max(1, n_each // 2)):
+        out.append(('extension namespace #%d' % b, extension_world(rng, S), ['GLib', 'GObject'], 'GObjectKit-1.0'))
     import c07
     for b in range(n_each):
         out.append(('constants and members world #%d' % b, misc_world(rng, S, c07), ['GLib', 'GObject']))
@@ -120,6 +122,29 @@ def lonely_world(rng, S, plain=False):
     if plain:
         groups = [rec, cb, rest]        # the structure first, then the callback type its member has
     r = S.run([x for g in groups for x in g], comments=[], includes=['GLib', 'GObject'], warnings=False)
+    return r.xml
+
+
+def extension_world(rng, S):
+    """a namespace whose name extends the name of a namespace it includes (GstBase/Gst, PangoCairo/Pango, GioUnix/Gio): here
+    GObjectKit including GObject, with types of its own that have the short names of GObject's (Object, Value, Closure) and
+    functions that take the included type and the own type side by side, in either order"""
+    syms = []
+    pairs = rng.sample([('GObject', 'FooObject'), ('GValue', 'FooValue'), ('GClosure', 'FooClosure')], rng.randint(1, 3))
+    line = 10
+    for inc_t, own_t in pairs:
+        syms += [S.FS(S.CSYMBOL_TYPE_TYPEDEF, own_t, base_type=S.FT(S.CTYPE_STRUCT, '_' + own_t), line=line),
+                 S.FS(S.CSYMBOL_TYPE_STRUCT, '_' + own_t, base_type=S.FT(S.CTYPE_STRUCT, '_' + own_t, child_list=[
+                     S.FS(S.CSYMBOL_TYPE_MEMBER, 'x', base_type=S.td('gint'), line=line + 1)]), line=line + 1)]
+        line += 5
+    k = 0
+    for inc_t, own_t in pairs:
+        for order in rng.sample([0, 1, 2, 3], rng.randint(2, 4)):
+            a, b = S.param('theirs', S.ptr(S.td(inc_t))), S.param('ours', S.ptr(S.td(own_t)))
+            ps = [[a, b], [b, a], [a], [b]][order]
+            syms.append(S.func('foo_combine_%d' % k, S.VOID, ps, line=100 + k))
+            k += 1
+    r = S.run(syms, comments=[], nsname='GObjectKit', identifier_prefixes=['Foo'], symbol_prefixes=['foo'], includes=['GLib', 'GObject'], warnings=False)
     return r.xml
 
 
@@ -349,7 +374,7 @@ def main(tier, seed):
             if rc != 0:
                 ck.tie_broken('harness', 'cannot compile the stub dependency %s: %s' % (n, o[-500:]))
         try:
-            girs = [g + ('Foo-1.0',) for g in scanner_girs(rng, 4 if tier == 'quick' else 40)]
+            girs = [g if len(g) == 4 else g + ('Foo-1.0',) for g in scanner_girs(rng, 4 if tier == 'quick' else 40)]
         except (Exception, SystemExit) as e:      # noqa
             ck.tie_broken('correspondence', 'the scanner fails on a generated world: %r' % (e,))
             girs = []
@@ -406,6 +431,23 @@ def main(tier, seed):
                     ck.failing_input('parameter list of %s differs between GIR and typelib' % path, dict(world=what, gir=xml),
                                      detail=dict(gir=[p_.get('name') for p_ in params], typelib=[a['name'] for a in t['args']]))
                     continue
+                # records, classes, interfaces, enumerations and callbacks named by a value: the typelib names the same definition of
+                # the same namespace (aliases are resolved by the compiler and are left out)
+                nsname_ = root.find(S.CORE + 'namespace').get('name')
+                kinds_ = ('record', 'class', 'interface', 'enumeration', 'bitfield', 'union', 'callback')
+                local_ = set(d_.get('name') for d_ in root.find(S.CORE + 'namespace') if d_.tag.replace(S.CORE, '') in kinds_)
+                for what_, el_, tl_ in [('return value', rv, t['ret'])] + [('parameter ' + p_.get('name'), p_, a) for p_, a in zip(params, t['args'])]:
+                    ty = el_.find(S.CORE + 'type') if el_ is not None else None
+                    tn = None if ty is None else ty.get('name')
+                    m = re.match(r'iface\(([^,)]*)', tl_.get('type', ''))
+                    if not tn or not m:
+                        continue
+                    want_q = tn if ('.' in tn and not tn.startswith(('GLib.List', 'GLib.SList', 'GLib.HashTable', 'GLib.Array', 'GLib.PtrArray',
+                                                                      'GLib.ByteArray', 'GLib.Error'))) else \
+                        ('%s.%s' % (nsname_, tn) if tn in local_ else None)
+                    if want_q is not None and '.' in m.group(1) and m.group(1) != want_q and what.startswith('extension namespace'):
+                        ck.failing_input('the typelib names another definition than the GIR for the %s of %s' % (what_, path),
+                                         dict(world=what, callable=path, gir=xml), detail=dict(gir=want_q, typelib=m.group(1)))
                 # C arrays: zero-termination, length index and fixed size as a GIR reader takes them, against the typelib's type
                 for what_, el_, tl_ in [('return value', rv, t['ret'])] + [('parameter ' + p_.get('name'), p_, a) for p_, a in zip(params, t['args'])]:
                     arr = el_.find(S.CORE + 'array') if el_ is not None else None
